@@ -477,4 +477,9 @@ def main():
     except subprocess.TimeoutExpired as e:
         log("TOOL-ERROR: timeout " + str(e))
         return 2
+    except Exception:
+        # a bug in the machinery itself is never a verdict about libhaystack: exit 2, not python's 1
+        import traceback
+        log("TOOL-ERROR: internal error of the check\n" + traceback.format_exc())
+        return 2
 
